@@ -205,13 +205,13 @@ theorem ticksNeeded_le (b : Bucket) (n : Nat) : ticksNeeded b n ≤ (n + b.refil
   omega
 
 theorem admit_some (b : Bucket) (n : Nat) (hn : n ≤ b.capacity) :
-    admit b n = some (ticksNeeded b n, (consume (produceN (ticksNeeded b n) b) n).1) := by
-  unfold admit
+    admitOne b n = some (ticksNeeded b n, (consume (produceN (ticksNeeded b n) b) n).1) := by
+  unfold admitOne
   rw [if_neg (by omega)]
 
-theorem admit_wf (b b' : Bucket) (n k : Nat) (h : b.WF) (ha : admit b n = some (k, b')) :
+theorem admit_wf (b b' : Bucket) (n k : Nat) (h : b.WF) (ha : admitOne b n = some (k, b')) :
     b'.WF ∧ b'.capacity = b.capacity ∧ b'.refill = b.refill := by
-  unfold admit at ha
+  unfold admitOne at ha
   split at ha
   · cases ha
   · simp only [Option.some.injEq, Prod.mk.injEq] at ha
